@@ -24,10 +24,11 @@ var snapGroups = []snapGroup{
 	{"Yubi", []string{"agent/yubiagent/server.go", "agent/yubiagent/client.go", "agent/yubiagent/io.go", "agent/yubiagent/message.go", "agent/yubiagent/agent.go"}},
 	{"Message", []string{"message/marshal.go", "message/sanity.go", "message/attrs.go"}},
 	{"Param", []string{"csr/param.go", "sshutils/version/sshversion.go", "csr/transid/transid.go", "common/nspolicy.go"}},
-	{"Parse", []string{"attestation/yubiattest/parse.go", "attestation/yubiattest/signature.go", "attestation/yubiattest/modhex.go", "agent/utils/parse.go"}},
+	{"Parse", []string{"attestation/yubiattest/parse.go", "attestation/yubiattest/modhex.go", "agent/utils/parse.go"}},
+	{"Attest", []string{"attestation/yubiattest/attest.go", "attestation/yubiattest/signature.go"}},
 	{"Tls", []string{"tlsutils/config.go", "crypki/signer.go", "crypki/conf.go", "internal/backoff/backoff.go"}},
 	{"GensignAux", []string{"config/hook.go", "config/gensign.go", "gensign/regular/conf.go", "gensign/regular/key.go", "agent/ssh/agent.go", "agent/ssh/opt.go", "csr/agentkey.go", "gensign/handler.go"}},
-	{"KeyIdAux", []string{"keyid/keyid.go", "sshutils/cert/type.go", "sshutils/cert/principal.go"}},
+	{"KeyId", []string{"keyid/keyid.go"}},
 }
 
 func defName(rel string) string {
